@@ -175,3 +175,60 @@ pub fn rollback_missing_on_one_path(flag: bool) -> io::Result<u32> {
     let v = r?;
     Ok(v)
 }
+
+// ---- buffered writers: flush discipline
+pub fn buffered_dropped_unflushed(p: &Path, data: &[u8]) -> io::Result<()> {
+    use std::io::Write;
+    let mut w = std::io::BufWriter::new(std::fs::File::create(p)?);
+    w.write_all(data)?;
+    Ok(())
+}
+pub fn buffered_flushed(p: &Path, data: &[u8]) -> io::Result<()> {
+    use std::io::Write;
+    let mut w = std::io::BufWriter::new(std::fs::File::create(p)?);
+    w.write_all(data)?;
+    w.flush()
+}
+pub fn buffered_flush_ignored(p: &Path, data: &[u8]) -> io::Result<()> {
+    use std::io::Write;
+    let mut w = std::io::BufWriter::new(std::fs::File::create(p)?);
+    w.write_all(data)?;
+    let _ = w.flush();
+    Ok(())
+}
+pub struct Sink<W: std::io::Write> {
+    out: W,
+}
+impl<W: std::io::Write> Sink<W> {
+    pub fn emit(&mut self, data: &[u8]) -> io::Result<()> {
+        self.out.write_all(data)?;
+        self.out.flush()
+    }
+}
+pub fn buffered_flushed_by_callee(p: &Path, data: &[u8]) -> io::Result<()> {
+    let mut s = Sink { out: std::io::BufWriter::new(std::fs::File::create(p)?) };
+    s.emit(data)
+}
+
+// ---- identity hashes: delimiters
+pub fn hash_undelimited(parts: &[&[u8]]) -> u64 {
+    use std::hash::Hasher;
+    let mut h = std::collections::hash_map::DefaultHasher::new();
+    parts.iter().for_each(|p| h.write(p));
+    h.finish()
+}
+pub fn hash_delimited(parts: &[&[u8]]) -> u64 {
+    use std::hash::Hasher;
+    let mut h = std::collections::hash_map::DefaultHasher::new();
+    parts.iter().for_each(|p| {
+        h.write_usize(p.len());
+        h.write(p)
+    });
+    h.finish()
+}
+pub fn hash_by_impl(parts: &[&[u8]]) -> u64 {
+    use std::hash::{Hash, Hasher};
+    let mut h = std::collections::hash_map::DefaultHasher::new();
+    parts.hash(&mut h);
+    h.finish()
+}
